@@ -99,7 +99,7 @@ def run(tier, seed, replay=None):
                 "swaps, cups, caps); (i, j, left) triples: quick = 10 random per diagram incl. out of "
                 "range, thorough = all; plus sequences of 2-3 interchanges; non-trivial = i != j in "
                 "range on a diagram of >= 2 boxes; distinct by request line")
-    rep.partial = ["closed form of the box list after a non-adjacent move (move_spec) is oracle-only"]
+    rep.partial = []
     rep.lean = lean_obligations(PROP, thorough=(tier == "thorough"))
     n_diagrams = 120 if tier == "quick" else 700
     rng = random.Random(seed)
